@@ -309,7 +309,7 @@ theorem received_get_ver (s : SendCfg) (e : ExcRec) (cls : ClsRef) (h : (e.dir.m
 
 theorem received_get_attr (s : SendCfg) (e : ExcRec) (cls : ClsRef) (d : DirEntry) (a : PyObj)
     (h : (e.dir.map (·.name)).Nodup) (hd : d ∈ e.dir) (hv : d.value = some a) (hs : skipped d.name = false)
-    (ha : (d.name == Gen.Vinegar.argsName) = false) :
+    (hdata : d.isData = true) (ha : (d.name == Gen.Vinegar.argsName) = false) :
     (received s e cls).get d.name = some (sendable a) := by
   have hne : (Gen.Vinegar.remoteTbAttr == d.name) = false := by
     cases hc : Gen.Vinegar.remoteTbAttr == d.name
@@ -319,7 +319,7 @@ theorem received_get_attr (s : SendCfg) (e : ExcRec) (cls : ClsRef) (d : DirEntr
       cases hs
   simp only [received, ExcObj.get, lookupAttr, hne, Bool.false_eq_true, ↓reduceIte]
   exact lookupAttr_reverse_of_mem _ _ _ (sent_full_nodup s e h)
-    (List.mem_append_left _ (sentAttrs_mem e.dir d a hd hv hs ha))
+    (List.mem_append_left _ (sentAttrs_mem e.dir d a hd hv (dropped_false_of d hs hdata) ha))
 
 theorem customClass_real_iff (r : RecvCfg) (env : Env) (m c : Str) :
     customClass r env m c = .real (.str m) c
